@@ -18,6 +18,8 @@ from checks import c11
 LEVEL = "exploration"
 
 BINDING_FAULTS = ["unknown-property", "ill-typed-value", "duplicate-binding", "unknown-attached-type"]
+GROUP_DUP_FAULTS = ["duplicate-in-group:dotted-then-braces", "duplicate-in-group:braces-then-dotted",
+                    "duplicate-in-group:within-braces", "duplicate-in-group:dotted-dotted"]
 CALLBACK_FAULTS = ["callback-incompatible-parameter", "callback-surplus-parameter", "callback-unknown-signal",
                    "callback-ill-typed-body"]
 TYPE_FAULTS = ["unknown-object-type", "invalid-object-type"]
@@ -64,9 +66,23 @@ def plantable(o, is_root):
     fs = list(BINDING_FAULTS)
     if kind not in ("spacer", "sep"):
         fs += CALLBACK_FAULTS          # every other kind is a QObject: objectNameChanged(QString) exists
+    if kind in ("widget", "menu"):
+        fs += GROUP_DUP_FAULTS          # every widget has a font
     if not is_root:
         fs += TYPE_FAULTS
     return fs
+
+
+def group_dup_items(fault):
+    """-> (items kept by the reference, items only the faulted document has)"""
+    first = qml.B("font.bold", "true")
+    if fault.endswith("dotted-then-braces"):
+        return [first], [qml.G("font", [qml.B("bold", "false")])]
+    if fault.endswith("braces-then-dotted"):
+        return [qml.G("font", [qml.B("bold", "true")])], [qml.B("font.bold", "false")]
+    if fault.endswith("dotted-dotted"):
+        return [first], [qml.B("font.bold", "false")]
+    return [], [qml.G("font", [qml.B("bold", "true"), qml.B("bold", "false")])]
 
 
 def plant(o, fault):
@@ -89,6 +105,11 @@ def plant(o, fault):
         b = qml.B(name, val)
         o.add(b)
         return b
+    if fault in GROUP_DUP_FAULTS:
+        keep, extra = group_dup_items(fault)
+        for it in keep + extra:
+            o.add(it)
+        return extra[-1]
     if fault in CALLBACK_FAULTS:
         b = {"callback-incompatible-parameter": qml.B("onObjectNameChanged", "function(n: int) {}"),
              "callback-surplus-parameter": qml.B("onObjectNameChanged", "function(n: QString, m: int) {}"),
@@ -121,6 +142,12 @@ def reference_of(root, target_path, fault):
         parent.items = [x for x in parent.items if x is not o]
     elif fault == "ill-typed-value" and c11.KINDS[o.tag][1] == "spacer":
         o.items = [x for x in o.items if not (isinstance(x, qml.B) and x.name == "orientation")]
+    elif fault in GROUP_DUP_FAULTS:
+        keep, _extra = group_dup_items(fault)
+        if fault.endswith("within-braces"):
+            keep = [qml.G("font", [qml.B("bold", "true")])]
+        for it in keep:
+            o.add(it)       # the reference keeps the first of the two bindings; the faulted object may lose it
     return ref
 
 
